@@ -119,8 +119,26 @@ Arith(op, a, b) ==
                                ELSE AnyV
 
 \* Apply a binary operator to two single values.
+\* Integers beyond the small integers TLC holds are carried as decimal digits (dec = [neg, digits, exp10], as harness/absval
+\* writes them).  int / int comparison is EXACT whatever the size (2^53 < 2^53 + 1); a big integer against a float stays open
+\* (ALLOW: the two readings differ only by the float rounding of a mixed pair).
+BigInt(a) == a.t = "int" /\ "v" \notin DOMAIN a /\ "dec" \in DOMAIN a
+RECURSIVE DigitsOfNat(_)
+DigitsOfNat(n) == IF n < 10 THEN <<n>> ELSE Append(DigitsOfNat(n \div 10), n % 10)
+\* <<negative?, digits without leading zeros>> ; zero is <<FALSE, <<0>>>>
+IntDigits(a) == IF BigInt(a) THEN <<a.dec.neg, a.dec.digits \o [i \in 1..a.dec.exp10 |-> 0]>>
+                ELSE <<a.v < 0, DigitsOfNat(IF a.v < 0 THEN -a.v ELSE a.v)>>
+MagCmp(x, y) == IF Len(x) # Len(y) THEN Sign(Len(x) - Len(y))
+                ELSE LET d == {i \in 1..Len(x) : x[i] # y[i]} IN IF d = {} THEN 0 ELSE Sign(x[MinOf(d)] - y[MinOf(d)])
+IntCmpExact(a, b) == LET x == IntDigits(a) y == IntDigits(b) IN
+                     IF x[1] # y[1] THEN (IF x[1] THEN -1 ELSE 1)
+                     ELSE IF x[1] THEN MagCmp(y[2], x[2]) ELSE MagCmp(x[2], y[2])
+BigPair(a, b) == a.t = "int" /\ b.t = "int" /\ (BigInt(a) \/ BigInt(b))
 Apply(op, a, b) ==
-    IF a.t = "any" \/ b.t = "any" \/ ~Modelled(a) \/ ~Modelled(b) THEN AnyV
+    IF BigPair(a, b) /\ op \in {"==", "!=", "<", ">", "<=", ">="}
+    THEN LET c == IntCmpExact(a, b) IN
+         BoolV(CASE op = "==" -> c = 0 [] op = "!=" -> c # 0 [] op = "<" -> c < 0 [] op = ">" -> c > 0 [] op = "<=" -> c <= 0 [] OTHER -> c >= 0)
+    ELSE IF a.t = "any" \/ b.t = "any" \/ ~Modelled(a) \/ ~Modelled(b) THEN AnyV
     ELSE CASE op = "==" -> OfCell(EqCell(a, b))
            [] op = "!=" -> OfCell(NegCell(EqCell(a, b)))                      \* the complement of ==, for all operand kinds
            [] op \in {"<", ">", "<=", ">="} -> OrdCell(op, a, b)
